@@ -150,6 +150,9 @@ def r2_code(r):
 
 def evaluate(chk, cases, tag):
     cfg = model_cfg()
+    for pr in MODEL_CFG_PROBLEMS:
+        if ("translator (LEF defect flags): " + pr) not in chk.broken:
+            chk.broken.append("translator (LEF defect flags): " + pr)
     res = harness("c04", [{"op": "rt", "src": c["src"]} for c in cases])
     items = []
     for c, r in zip(cases, res):
